@@ -420,7 +420,8 @@ def exitOut (cfg : ECfg) (F : EFrame) (t1 d : Nat) (o : Obs) : List Out :=
 /-- the exit hook of a recorded frame without filters: one record_trace_data call -/
 theorem exitE_unfold (cfg : ECfg) (hp : PlainE cfg) (s2 : ESt) (top : EFrame) (rest : List EFrame) (t1 : Nat) (o : Obs)
     (hfr : s2.frames = top :: rest) (hover : s2.over = 0) (hnr : top.b.norecord = false)
-    (hen : s2.enabled = true) (hft : s2.filt.time = noTime) (hdur : t1 - top.b.start > 0) (hpend : s2.pend = []) :
+    (hen : s2.enabled = true) (hft : s2.filt.time = noTime)
+    (hdur : durOk cfg.base (t1 - top.b.start) 0 = true) (hpend : s2.pend = []) :
     exitE cfg s2 t1 o =
       { s2 with
         filt := { s2.filt with
@@ -461,7 +462,9 @@ theorem exitE_plain (cfg : ECfg) (hp : PlainE cfg) (k : Kind) (s2 : ESt) (d f t0
   have hEF := entryEvs_of_all F hev'
   have hnr : (withW F w).b.norecord = false := by simp [withW, hb, plainFrame]
   have hdis : (withW F w).b.disabled = false := by simp [withW, hb, plainFrame]
-  have hdur : t1 - (withW F w).b.start > 0 := by simp [hst]; omega
+  have hdur : durOk cfg.base (t1 - (withW F w).b.start) 0 = true := by
+    have : (withW F w).b.start = t0 := by simp [withW, hst]
+    rw [this]; exact durOk_of_lt cfg.base t0 t1 ht
   have hu := exitE_unfold cfg hp s2 (withW F w) rest t1 o hfr h1 hnr h4 h9 hdur h12
   -- the frame record_trace_data sees
   have hX : exitArea cfg (setEnd (withW F w) t1) (rest.length + 1) o = withW (exitFrame cfg F t1 d o) w := by
@@ -1151,7 +1154,7 @@ theorem entryFinish_eq (cfg : ECfg) (sB : ESt) (F : EFrame) (rest : List EFrame)
 
 /-- the exit hook of a call that passes the time filter: record_trace_data -/
 theorem exitFinish_record (cfg : ECfg) (sB : ESt) (f f1 : EFrame) (rest : List EFrame) (tf : Nat) (retv : Bool) (o : Obs)
-    (hc : f.b.endT - f.b.start > tf) (hcm : cfg.base.callerMode = false) :
+    (hc : durOk cfg.base (f.b.endT - f.b.start) tf = true) (hcm : cfg.base.callerMode = false) :
     exitFinish cfg sB f f1 rest tf retv o =
       ({ watchStep cfg sB f1.b rest.length o with frames := f1 :: rest } : ESt).recorded
         (recordTraceE cfg retv (f1 :: rest) (watchStep cfg sB f1.b rest.length o).pend) := by
@@ -1300,7 +1303,7 @@ theorem exitE_T_unfold (cfg : ECfg) (s2 : ESt) (top : EFrame) (rest : List EFram
 /-- the tail of the exit hook for a call the time filter drops (repaired tag rule): the pending watch
     events of this call and of its callees go, everything older stays, nothing is written -/
 theorem exitFinish_drop (cfg : ECfg) (sB : ESt) (f f1 : EFrame) (rest : List EFrame) (tf : Nat) (retv : Bool) (o : Obs)
-    (hshort : ¬ (f.b.endT - f.b.start > tf)) (hw : f.b.written = false) (htr : f.b.trace = false)
+    (hshort : durOk cfg.base (f.b.endT - f.b.start) tf = false) (hw : f.b.written = false) (htr : f.b.trace = false)
     (p0 W0 : List Ev) (hpend : sB.pend = p0 ++ W0) (h0 : ∀ e ∈ p0, e.idx < rest.length + 1)
     (hW0 : ∀ e ∈ W0, e.idx = rest.length + 1) (hfix : cfg.fixIdx = true) (hmax : rest.length + 1 < ASYNC_IDX) :
     (exitFinish cfg sB f f1 rest tf retv o).pend = p0 ∧
@@ -1330,7 +1333,7 @@ theorem exitFinish_drop (cfg : ECfg) (sB : ESt) (f f1 : EFrame) (rest : List EFr
   have hks : keepSync (watchStep cfg sB f1.b rest.length o).pend (rest.length + 1) = p0 := by
     rw [hp']
     exact keepSync_split p0 (W0 ++ W) (rest.length + 1) h0 (fun e he => by have := hWi e he; omega)
-  have hc : ((decide (f.b.endT - f.b.start > tf) && (!cfg.base.callerMode || f.b.caller)) || f.b.written || f.b.trace) = false := by
+  have hc : ((durOk cfg.base (f.b.endT - f.b.start) tf && (!cfg.base.callerMode || f.b.caller)) || f.b.written || f.b.trace) = false := by
     simp [hshort, hw, htr]
   unfold exitFinish
   simp only [hc, Bool.false_eq_true, ↓reduceIte, hna]
@@ -1346,19 +1349,20 @@ theorem exitFinish_drop (cfg : ECfg) (sB : ESt) (f f1 : EFrame) (rest : List EFr
 
 
 mutual
-  /-- every call of the history lasts at most `thr` (so the time filter -t thr drops it) -/
-  def ECall.short (thr : Nat) : ECall → Prop
-    | .node _ t0 t1 _ _ kids => t1 - t0 ≤ thr ∧ kids.short thr
-  def ECalls.short (thr : Nat) : ECalls → Prop
+  /-- every call of the history is one the time filter -t thr drops: it ran less than `thr`
+      (not longer than `thr` for the code before the repair of finding S4, `base.s4fixed = false`) -/
+  def ECall.short (b : Cfg) (thr : Nat) : ECall → Prop
+    | .node _ t0 t1 _ _ kids => durOk b (t1 - t0) thr = false ∧ kids.short b thr
+  def ECalls.short (b : Cfg) (thr : Nat) : ECalls → Prop
     | .nil => True
-    | .cons c rest => c.short thr ∧ rest.short thr
+    | .cons c rest => c.short b thr ∧ rest.short b thr
 end
 
 theorem exitE_T_drop (cfg : ECfg) (hp : PlainT cfg) (hfix : cfg.fixIdx = true) (k : Kind) (s s2 : ESt)
     (d f t0 t1 : Nat) (F : EFrame) (o : Obs) (W : List Ev)
     (hb : F.b = plainFrame k f t0 d) (hg : GoodT s d) (hg2 : GoodT s2 (d + 1))
     (hfr : s2.frames = F :: s.frames) (hpend : s2.pend = s.pend ++ W) (hW : ∀ e ∈ W, e.idx = d + 1)
-    (hout : s2.out = s.out) (hshort : t1 - t0 ≤ cfg.base.threshold) (hdm : d + 1 < ASYNC_IDX) :
+    (hout : s2.out = s.out) (hshort : durOk cfg.base (t1 - t0) cfg.base.threshold = false) (hdm : d + 1 < ASYNC_IDX) :
     (exitE cfg s2 t1 o).out = s.out ∧
     (exitE cfg s2 t1 o).pend = s.pend ∧
     (exitE cfg s2 t1 o).frames = s.frames ∧
@@ -1368,7 +1372,7 @@ theorem exitE_T_drop (cfg : ECfg) (hp : PlainT cfg) (hfix : cfg.fixIdx = true) (
   have hlen := hg.len
   obtain ⟨a1, a2, a3, a4, a5, a6, a7⟩ := exitFinish_drop cfg (exitBase s2 (setEnd F t1) s.frames) (setEnd F t1)
     (exitArea cfg (setEnd F t1) (s.frames.length + 1) o) s.frames cfg.base.threshold (!F.b.cyg && F.retFl) o
-    (by simp [hb, plainFrame]; omega) (by simp [hb, plainFrame]) (by simp [hb, plainFrame])
+    (by simpa [hb, plainFrame, setEnd] using hshort) (by simp [hb, plainFrame]) (by simp [hb, plainFrame])
     s.pend W (by simp [exitBase, hpend]) (by rw [hlen]; exact hg.pend) (by rw [hlen]; exact hW) hfix
     (by rw [hlen]; exact hdm)
   rw [hu]
@@ -1392,7 +1396,7 @@ mutual
     the pending events and the open frames are as before (repaired tag rule, `fixIdx`) -/
 theorem dropped_call (cfg : ECfg) (hp : PlainT cfg) (hfix : cfg.fixIdx = true) (k : Kind) :
     ∀ (c : ECall) (s : ESt) (d : Nat), GoodT s d → d + c.height ≤ cfg.base.maxStack →
-      d + c.height ≤ cfg.base.depthOpt → c.short cfg.base.threshold →
+      d + c.height ≤ cfg.base.depthOpt → c.short cfg.base cfg.base.threshold →
       (runECall cfg k s c).out = s.out ∧ (runECall cfg k s c).pend = s.pend ∧
       (runECall cfg k s c).frames = s.frames ∧ GoodT (runECall cfg k s c) d
   | .node f t0 t1 oE oX kids, s, d, hg, hm, hd, hs => by
@@ -1409,7 +1413,7 @@ theorem dropped_call (cfg : ECfg) (hp : PlainT cfg) (hfix : cfg.fixIdx = true) (
       (fun e he => by rw [(e5 e he).2.1, htag]) (by rw [k1, e2]) hs.1 (by omega)
 theorem dropped_calls (cfg : ECfg) (hp : PlainT cfg) (hfix : cfg.fixIdx = true) (k : Kind) :
     ∀ (cs : ECalls) (s : ESt) (d : Nat), GoodT s d → d + cs.height ≤ cfg.base.maxStack →
-      d + cs.height ≤ cfg.base.depthOpt → cs.short cfg.base.threshold →
+      d + cs.height ≤ cfg.base.depthOpt → cs.short cfg.base cfg.base.threshold →
       (runECalls cfg k s cs).out = s.out ∧ (runECalls cfg k s cs).pend = s.pend ∧
       (runECalls cfg k s cs).frames = s.frames ∧ GoodT (runECalls cfg k s cs) d
   | .nil, s, d, hg, _, _, _ => by simp [runECalls, hg]
